@@ -102,6 +102,13 @@ def main():
         t0 = time.time()
         c = sh(f"ctest --test-dir {wt}/_build -j8 --timeout 900 2>&1 | tail -6")
         meta["steps"]["ctest"] = {"build_tail": b.stdout[-300:], "summary": c.stdout[-500:], "wall_s": round(time.time() - t0)}
+        if "100% tests passed" not in c.stdout:
+            # timing tests (stopwatch_*) are load sensitive on this shared machine: re-run only the failed ones, alone
+            failed = re.findall(r"^\s+\d+ - (\S+) \(", sh(f"ctest --test-dir {wt}/_build -j8 --timeout 900 2>&1 | tail -12").stdout, re.M)
+            rr = sh(f"ctest --test-dir {wt}/_build --rerun-failed -j1 --timeout 900 2>&1 | tail -4")
+            meta["steps"]["ctest"]["failed_first_run"] = failed
+            meta["steps"]["ctest"]["rerun_failed_alone"] = rr.stdout[-300:]
+            meta["steps"]["ctest"]["all_pass_after_rerun"] = "100% tests passed" in rr.stdout
     # 4. the checks
     meta["checks"] = {}
     for p in props:
